@@ -1,16 +1,22 @@
 #!/bin/bash
-# usage: confirm_seed.sh <seed-dir>  -- independent confirmation in a scratch worktree (removed afterwards)
-SEED="$1"; NAME=$(basename "$SEED"); WT=/tmp/wt-confirm-$NAME
+# usage: confirm_seed.sh <seed-dir> [features]  -- independent confirmation in a scratch worktree (removed afterwards)
+SEED="$1"; FEAT="$2"; NAME=$(basename "$SEED"); WT=/tmp/wt-confirm-$NAME
 export CARGO_NET_OFFLINE=true
+FA=""; [ -n "$FEAT" ] && FA="--features $FEAT"
 git -C /repo worktree add -q --detach "$WT" HEAD || exit 9
 cd "$WT"
 res="seed=$NAME"
 git apply "$SEED/patch.diff" && res="$res applies=yes" || res="$res applies=NO"
 cargo build --offline --no-default-features --features compiled_data,verif_hooks >/dev/null 2>&1 && res="$res build_hooks=ok" || res="$res build_hooks=FAIL"
 cargo test --workspace --no-fail-fast --offline > "$WT/suite.log" 2>&1 && res="$res suite_with_patch=pass" || res="$res suite_with_patch=FAIL"
+if [ -n "$FEAT" ]; then
+  cargo test --offline $FA > "$WT/suite2.log" 2>&1 && res="$res suite[$FEAT]_with_patch=pass" || res="$res suite[$FEAT]_with_patch=FAIL"
+fi
 mkdir -p tests && cp "$SEED/demo.rs" tests/demo_seed.rs
-cargo test --offline --test demo_seed > "$WT/demo_patched.log" 2>&1 && res="$res demo_with_patch=PASS(unexpected)" || res="$res demo_with_patch=fails"
+cargo test --offline $FA --test demo_seed > "$WT/demo_patched.log" 2>&1
+if grep -q "test result: FAILED" "$WT/demo_patched.log"; then res="$res demo_with_patch=fails"; else res="$res demo_with_patch=NOT-A-TEST-FAILURE($(grep -c '^error' $WT/demo_patched.log) compile errors)"; fi
 git checkout -q -- . 
-cargo test --offline --test demo_seed > "$WT/demo_clean.log" 2>&1 && res="$res demo_clean=passes" || res="$res demo_clean=FAILS(unexpected)"
+cargo test --offline $FA --test demo_seed > "$WT/demo_clean.log" 2>&1
+if grep -q "test result: ok. [1-9]" "$WT/demo_clean.log"; then res="$res demo_clean=passes"; else res="$res demo_clean=DOES-NOT-PASS"; fi
 echo "$res"
 cd / && git -C /repo worktree remove --force "$WT"
